@@ -59,4 +59,6 @@ d4b85b4 C08
 f8434c2 C13
 460c1b6 C19
 02ce248 C16
+51e4f90 C13
+75a507b C12
 LIST
